@@ -396,6 +396,11 @@ fn parse_json_event(input: &[u8], output: &mut [u8]) -> Result<(usize, usize), E
         return Err(InnerError::BufferTooSmall(152).into());
     }
 
+    // zero-padding (events compare and hash by their bytes, so the padding
+    // must not depend on what the caller's buffer held before)
+    output[6] = 0;
+    output[7] = 0;
+
     // This tracks where we are currently looking in the input as we scan forward.
     // It is short for INput POSition.
     let mut inpos = 0;
